@@ -12,7 +12,7 @@
  R09.4 merged listing: union exists guard; children of every layer that has the directory are merged into a set;
        markers of that directory are subtracted.
 """
-from ..terms import get_tracer, fmt, strip, short, walk
+from ..terms import get_tracer, fmt, strip, short, walk, passthrough_of
 from ..pathflow import World
 from ..overlayrules import Overlay, literal_pieces
 from ..pathrules import sname, peel
@@ -535,6 +535,24 @@ def materialisation_rules(facts, rep, w, rule="R09.2"):
                     x2 = tr.operand(t2.args[0])
                     if any(y[0] == "call" and len(y) > 3 and y[3] == (cb.id, s.bb) for y in walk(x2)):
                         propagated = True
+            # ... or by hand: `if let Err(e) = X { return Err(e) }` / `match X { Err(e) => return Err(e), .. }` / X as the tail
+            for ct2, _, _ in ov.inter.ret_cases(cb):
+                t2 = norm(ct2)
+                if t2[0] == "agg" and t2[2] == "Err" and len(t2[3]) == 1:
+                    pl = t2[3][0][1]
+                    while pl[0] == "call" and pl[1] in ("From::from", "Into::into") and pl[2]:
+                        pl = pl[2][0]
+                    if pl[0] == "errval":
+                        src = pl[1]
+                        while src[0] == "await":
+                            src = src[1]
+                        if src[0] == "call" and len(src) > 3 and src[3] == (cb.id, s.bb):
+                            propagated = True
+                pt = passthrough_of(t2)
+                while pt[0] == "await":
+                    pt = pt[1]
+                if pt[0] == "call" and len(pt) > 3 and pt[3] == (cb.id, s.bb):
+                    propagated = True
             n += 1
             rep.ob(rule, b.id, "a failed materialisation is propagated with `?`", propagated, "" if propagated else
                    "the result of create_dir_all on the upper layer is tested or discarded instead of propagated: the write layer's "
